@@ -117,6 +117,20 @@ func (in *Interp) globalAddr(g *ssa.Global) *Value {
 	if r, ok := in.globals[g]; ok {
 		return r
 	}
+	// package os is not initialised (its init needs the runtime); its portable error values
+	// are aliases of io/fs's, which is
+	if g.Pkg != nil && g.Pkg.Pkg.Path() == "os" {
+		switch g.Name() {
+		case "ErrInvalid", "ErrPermission", "ErrExist", "ErrNotExist", "ErrClosed":
+			if fsp := in.prog.ImportedPackage("io/fs"); fsp != nil {
+				if fg, ok := fsp.Members[g.Name()].(*ssa.Global); ok {
+					cell := in.globalAddr(fg)
+					in.globals[g] = cell
+					return cell
+				}
+			}
+		}
+	}
 	cell := new(Value)
 	*cell = zero(deref(g.Type()))
 	in.globals[g] = cell
